@@ -206,7 +206,7 @@ SOURCES = [("plain", "void setup() {}\nvoid loop() {}\n"), ("no-trailing-newline
            ("crlf", "void setup() {}\r\nvoid loop() {}\r\n"), ("lone-cr", "a\rb"), ("trailing-blank", "x \n\n\n  \n"),
            ("ini-like", "[env:uno]\nplatform = x\n"), ("nul-and-bom", "\ufeffint a;\x00\n"), ("astral", "// \U0001F600 \U00010348\n"),
            ("long", "int x;\n" * 20000), ("percent", "printf(\"%d %s %%\");\n")]
-PRES = ["absent", "empty", "stale", "nested"]
+PRES = ["absent", "empty", "stale", "nested", "twin"]
 
 
 def gen_ports(n: int, seed: int) -> list[str]:
